@@ -370,7 +370,7 @@ func tokensForConc() []*sealedTok {
 }
 
 func c06ConcSub() *engine.Sub {
-	return engine.ConcurrentSub("concurrent-decoding", "genuine and tampered tokens decoded from two logical threads",
+	return engine.ConcurrentSub("concurrent-decoding", "genuine and tampered tokens decoded, and tokens sealed, from two logical threads",
 		func(tier string) []engine.Call {
 			var cs []engine.Call
 			for _, t := range tokensForConc() {
@@ -402,6 +402,20 @@ func c06ConcSub() *engine.Sub {
 						return "rejected"
 					}
 					return "ACCEPTED"
+				}})
+				// a token being sealed while the other thread decodes (whatever sealing does - encode, sign, read back -
+				// a decode that happens meanwhile is judged like any other)
+				cs = append(cs, engine.Call{Name: "ToSealed(" + t.Name + ")", Want: "sealed", Run: func() string {
+					if _, _, err := t.Tok.(sealer).ToSealed(t.Key.Priv); err != nil {
+						return "error:" + err.Error()
+					}
+					return "sealed"
+				}})
+				cs = append(cs, engine.Call{Name: "ToDagJson(" + t.Name + ")", Want: "sealed", Run: func() string {
+					if _, err := t.Tok.(sealer).ToDagJson(t.Key.Priv); err != nil {
+						return "error:" + err.Error()
+					}
+					return "sealed"
 				}})
 			}
 			return cs
